@@ -2,9 +2,14 @@
   * 'slice'  : the one-contig-per-process job construction block of tag_multiome_multi_processing, located in the
                current AST and executed from the current source with a stubbed get_contigs_with_reads; the resulting
                job list is passed through the real generate_tasks
-  * 'cases'  : synthetic BAMs through run_multiome_tagging_cmd (single / --multiprocess), output read back with pysam
+  * 'cases'  : synthetic BAMs through run_multiome_tagging_cmd (single / --multiprocess), output read back with pysam;
+               a run whose argument list starts with '--BINNED' goes through the same command line entry point with
+               tag_multiome_multi_processing called with one_contig_per_process=False (reachable from the Python API only)
+  * 'sel'    : job lists under a contig selection (-contig / -skip_contig): the real tag_multiome_multi_processing is
+               called in both job modes with molecule_iterator_args['contig'] / ['skip_contigs'], get_contigs_with_reads
+               stubbed, a real (header-only) BAM for the contig lengths, generate_tasks intercepted
 """
-import ast, io, os, sys, textwrap, traceback, contextlib
+import ast, io, json, os, sys, textwrap, traceback, contextlib
 import fw
 
 
@@ -121,6 +126,81 @@ def run_slice(repo, contig_lists, force_route=None):
     return {'lines': [first, last], 'source': text, 'route': route, 'outs': outs}
 
 
+def run_slice_sel(repo, cases):
+    """job lists of the real tag_multiome_multi_processing under a contig selection.  case: {'hdr': [[name, len]..],
+    'cwr': [[name, len]..] (what get_contigs_with_reads yields, '*' included or not), 'contig': name|None,
+    'skip': [names]|None, 'mode': 'cpp'|'binned', 'bp_per_job', 'bp_per_segment', 'fragment_size'}.
+    returns per case {'jobs': [[ [contig, start, end, fetch_start, fetch_end], ..], ..]} or {'error': ..}"""
+    import pysam
+    import singlecellmultiomics.universalBamTagger.bamtagmultiome as tm
+    if not (hasattr(tm, 'get_contigs_with_reads') and hasattr(tm, 'generate_tasks') and hasattr(tm, 'tag_multiome_multi_processing')):
+        return {'fatal': 'bamtagmultiome no longer has get_contigs_with_reads / generate_tasks / tag_multiome_multi_processing at module level'}
+    saved = {k: getattr(tm, k) for k in ('get_contigs_with_reads', 'generate_tasks')}
+    scratch = os.environ.get('SCMO_SCRATCH', os.getcwd())
+    hdr_files = {}
+    outs = []
+    try:
+        for case in cases:
+            try:
+                hk = json.dumps(case['hdr'])
+                if hk not in hdr_files:
+                    path = os.path.join(scratch, 'selhdr_%d.bam' % len(hdr_files))
+                    header = {'HD': {'VN': '1.6', 'SO': 'coordinate'}, 'SQ': [{'SN': n, 'LN': l} for n, l in case['hdr']]}
+                    with pysam.AlignmentFile(path, 'wb', header=header):
+                        pass
+                    hdr_files[hk] = path
+                path = hdr_files[hk]
+                calls = []
+
+                def stub(p, with_length=False, _cl=case['cwr'], _calls=calls):
+                    _calls.append(p)
+                    for c, l in _cl:
+                        yield (c, l) if with_length else c
+                box = []
+
+                def capture(*a, **kw):
+                    jg = kw.get('job_gen', a[1] if len(a) > 1 else None)
+                    box.append([[list(t) for t in j] for j in jg])
+                    raise _Captured()
+                tm.get_contigs_with_reads = stub
+                tm.generate_tasks = capture
+                mia = {'contig': case.get('contig'), 'start': None, 'end': None,
+                       'skip_contigs': (set(case['skip']) if case.get('skip') is not None else None)}
+                try:
+                    with contextlib.redirect_stdout(io.StringIO()), contextlib.redirect_stderr(io.StringIO()):
+                        tm.tag_multiome_multi_processing(
+                            input_bam_path=path, out_bam_path=os.path.join(scratch, 'never_written.bam'),
+                            molecule_iterator_args=mia, fragment_size=case.get('fragment_size', 500),
+                            bp_per_job=case.get('bp_per_job', 10 ** 7), bp_per_segment=case.get('bp_per_segment', 10 ** 6),
+                            temp_folder_root=scratch, one_contig_per_process=(case['mode'] == 'cpp'), use_pool=False,
+                            additional_args={})
+                    raise RuntimeError('tag_multiome_multi_processing returned without handing a job list to generate_tasks')
+                except _Captured:
+                    pass
+                finally:
+                    tm.get_contigs_with_reads = saved['get_contigs_with_reads']
+                    tm.generate_tasks = saved['generate_tasks']
+                if any(p != path for p in calls):
+                    raise RuntimeError('contigs are read from another file: %r' % (calls,))
+                outs.append({'jobs': box[0]})
+            except BaseException as e:
+                outs.append({'error': '%s: %s' % (type(e).__name__, str(e)[:300])})
+    finally:
+        for k, v in saved.items():
+            setattr(tm, k, v)
+        for f in hdr_files.values():
+            for g in (f, f + '.bai'):
+                try:
+                    os.remove(g)
+                except OSError:
+                    pass
+        import shutil
+        for d in os.listdir(scratch):       # temp folders tag_multiome_multi_processing created before the interception
+            if d.startswith('scmo_') and os.path.isdir(os.path.join(scratch, d)):
+                shutil.rmtree(os.path.join(scratch, d), ignore_errors=True)
+    return {'outs': outs}
+
+
 # ----------------------------------------------------------------------------- BAM writing / reading
 def write_bam(path, case, index=True):
     import pysam
@@ -166,6 +246,7 @@ def read_bam(path):
                          'ql': ''.join(chr(q + 33) for q in (r.query_qualities if r.query_qualities is not None else [])),
                          'rg': (r.get_tag('RG') if r.has_tag('RG') else None), 'nt': r.next_reference_id, 'q': r.mapping_quality,
                          'tg': {k: r.get_tag(k) for k in ('SM', 'Fc', 'La', 'LY') if r.has_tag(k)},
+                         'ds': bool(r.has_tag('DS')),
                          'id': (r.get_tag('zi') if r.has_tag('zi') else None)})
         res['records'] = recs
     res['bai'] = os.path.exists(path + '.bai')
@@ -197,7 +278,19 @@ def one_run(inp, rd, rargs, stale_bai=None):
     try:
         if stale_bai:
             make_stale(inp, stale_bai)
-        args = [inp, '-o', out] + list(rargs)
+        rargs = list(rargs)
+        binned = bool(rargs) and rargs[0] == '--BINNED'
+        if binned:
+            # the binned job mode is not reachable from the command line (--multiprocess forces one contig per process):
+            # same entry point, the flag overridden at the call of tag_multiome_multi_processing
+            rargs = rargs[1:]
+            orig = tm.tag_multiome_multi_processing
+
+            def force_binned(*a, **kw):
+                kw['one_contig_per_process'] = False
+                return orig(*a, **kw)
+            tm.tag_multiome_multi_processing = force_binned
+        args = [inp, '-o', out] + rargs
         os.chdir(rd)
         with contextlib.redirect_stdout(io.StringIO()), contextlib.redirect_stderr(io.StringIO()):
             tm.run_multiome_tagging_cmd(args)
@@ -317,6 +410,11 @@ def handler(p):
             res['slice'] = run_slice(os.environ.get('SCMO_REPO', '/repo'), p['slice'])
         except BaseException as e:
             res['slice'] = {'fatal': '%s: %s' % (type(e).__name__, e)}
+    if 'sel' in p:
+        try:
+            res['sel'] = run_slice_sel(os.environ.get('SCMO_REPO', '/repo'), p['sel'])
+        except BaseException as e:
+            res['sel'] = {'fatal': '%s: %s' % (type(e).__name__, e)}
     if 'cases' in p:
         # the tagger sleeps 5 s before removing its temp dir in multiprocess mode: not part of the behaviour under test
         import singlecellmultiomics.universalBamTagger.bamtagmultiome as tm
